@@ -243,6 +243,14 @@ fn run_generic<V: VringT<GM> + Clone + Send + Sync + 'static>(ctx: &mut Ctx, h: 
         if got_s != want {
             return Err(format!("{desc}: back end's guest memory has regions {got_s:x?}, accepted operations give {want:x?}"));
         }
+        // (1b) ... and what it saw at the moment it was notified (a back end may use the memory inside the callback)
+        if updates > 0 {
+            let mut at = s.fx.be.st.lock().unwrap().mem_at_notification.clone();
+            at.sort();
+            if at != want {
+                return Err(format!("{desc}: at the time of the latest notification the memory handed to the back end had regions {at:x?}, the accepted operations give {want:x?}"));
+            }
+        }
         // (3) byte backing both ways
         if let Some(m) = &mem {
             let gm = m.memory();
